@@ -130,7 +130,8 @@ def run_workers(cmds, timeout):
     for i, c in enumerate(cmds):
         f1, n1 = tempfile.mkstemp(prefix="w.", suffix=".err", dir=sd)
         f2, n2 = tempfile.mkstemp(prefix="w.", suffix=".out", dir=sd)
-        eo = os.fdopen(f1, "w+"); oo = os.fdopen(f2, "w+")
+        # bytes, decoded as latin-1: a debug build of the library prints raw address bytes to stdout between the protocol lines
+        eo = os.fdopen(f1, "w+", encoding="latin-1", newline=""); oo = os.fdopen(f2, "w+", encoding="latin-1", newline="")
         procs.append((subprocess.Popen(c, stdout=oo, stderr=eo, env=ENV, cwd=VERIF), oo, eo, n2, n1))
     out = []
     deadline = time.time() + timeout
